@@ -9,6 +9,7 @@ from __future__ import annotations
 import calendar
 import email.utils
 import math
+import random
 import zoneinfo
 from datetime import datetime, timedelta, timezone
 from unittest import mock
@@ -312,6 +313,15 @@ def _gen_doc(rng, k, timeseries, pool=None):
            ["siteID", "0002"], ["spaceID", "CA-303"], ["stationID", "2-39-78-362"], ["timezone", zone],
            ["userID", rng.choice([None, "000123"])],
            ["userInputs", rng.choice([None, [{"userID": 12, "modifiedAt": rfc(t0)}]])]]
+    # the server's own bookkeeping fields (Eve: _created / _updated / _etag) are top-level fields like any other: their RFC-1123
+    # stamps are timestamp fields of the document too.  Private sub-generator: the main stream is not shifted.
+    _sub = random.Random(repr(("eve", k, t0, zone)))
+    if _sub.random() < 0.4:
+        doc.append(["_created", rfc(t0 - _sub.randint(0, 86400))])
+        doc.append(["_updated", rfc(t1 + _sub.randint(0, 86400))])
+        doc.append(["_etag", "5d41402abc4b2a76b9719d911017c592"])
+        if _sub.random() < 0.3:
+            doc.append(["_links", {"self": {"title": "session", "href": f"sessions/x/{k}"}}])
     r = rng.random()
     if r < 0.015:
         doc = [f for f in doc if f[0] != "timezone"]                   # KeyError
